@@ -104,7 +104,8 @@ def rs_event(op: list, slot: int, scn: Dict[str, Any], scratch: str) -> List[lis
         return [[at, "m.ackisr", slot, op[2]]]
     if kind == "restart":
         return [[at, "m.restart", slot, os.path.join(scratch, f"snap-{os.getpid()}-{at}.pcsnap"),
-                 {"expand": rs_expand(scn), "device": scn.get("device")}]]
+                 {"expand": rs_expand(scn), "device": scn.get("device"),
+                  **({"kb_repeat": bool(scn["kb"]["repeat"])} if "repeat" in (scn.get("kb") or {}) else {})}]]
     if kind == "rewind":
         return [[at, "m.rewind", slot, os.path.join(scratch, f"snap-{os.getpid()}-{at}.pcsnap"), int(op[2])]]
     if kind == "scramble":
